@@ -166,7 +166,7 @@ fn client_server(d: &Draw, w: &Arc<World>, sandbox: &Sandbox, prop: &'static str
             std::fs::write(&client_path, content(d.pick("swarm.download.old_len", &[len + 900, len / 2, 3 * len + 11]), 94)).unwrap();
         }
     }
-    let plan = ClientPlan { upload, v6: srv.v6, port: srv.port, blksize: b, windowsize: wsz, timeout_s: tmo, file_arg: file_arg.clone(), receive_dir: cli_dir.clone(), keep_on_error: false };
+    let plan = ClientPlan { upload, v6: srv.v6, port: srv.port, blksize: b, windowsize: wsz, timeout_s: tmo, file_arg: file_arg.clone(), receive_dir: cli_dir.clone(), keep_on_error: d.chance("swarm.client.keep_on_error", 1, 3) };
     let desc = format!(
         "client/server {} {} file_arg={:?} len={len} blksize={b} windowsize={wsz} timeout={tmo} refusal_kind={refusal}",
         srv.describe(),
@@ -361,6 +361,10 @@ pub fn cleanup(tier: Tier, w: &Arc<World>) -> Scn {
                 0 => {
                     if d.chance("swarm.c13.die_mid_window", 1, 2) {
                         xc.die_after_blocks = Some(d.range("swarm.c13.die_after", nblocks.min(30) + 1) as u64);
+                        if d.chance("swarm.c13.loss_before_death", 1, 2) {
+                            // one block of the last window is lost on top: the survivors arrive out of sequence
+                            fc.forced_nth = Some((d.range("swarm.c13.lost_datagram", 24) as u64, crate::world::Fate::Drop));
+                        }
                     } else {
                         xc.script.push((step, Adv::Silent));
                     }
@@ -505,6 +509,30 @@ pub fn isolation(tier: Tier, w: &Arc<World>) -> Scn {
         clients.push(ClientSpec { client: c, peer: p, upload, content: data.clone(), path: path.clone() });
         xspecs.push(XferSpec { client: c, peer: p, kind: if upload { Kind::Upload } else { Kind::Download }, content: data, path, conformant: true, dally: true, timeout_ratio: 1 });
         starts.push((p, 4000 * SEC + j as Ns * MS));
+    }
+    if srv.single_port && d.chance("swarm.live_predecessor", 1, 3) {
+        // an endpoint abandons an upload (timeout 1 s: its worker gives up about 6 s later) and at once
+        // starts a download that it reads slowly, so the predecessor dies in the middle of it
+        let up = Arc::new(content(4000, 400));
+        let mut xa = XferCfg::new(srv.addr(), "ua.bin");
+        xa.opts = vec![("timeout".into(), "1".into())];
+        xa.resend_request = false;
+        xa.die_after_blocks = Some(1 + d.range("swarm.pred.die_after", 3) as u64);
+        let (pa, ca) = w.add_peer(Box::new(Writer::new(xa, up.to_vec())), srv.v6, 0);
+        let data = Arc::new(content(512 * 19 + 100, 401));
+        let path = dir.join("fs.bin");
+        std::fs::write(&path, &*data).unwrap();
+        let mut xb = XferCfg::new(srv.addr(), "fs.bin");
+        xb.resend_request = false;
+        xb.think_ns = 450 * MS;
+        xb.timeout_ns = 20 * SEC;
+        let (pb, cb) = w.add_peer_on(Box::new(Reader::new(xb)), pa);
+        let _ = ca;
+        clients.push(ClientSpec { client: cb, peer: pb, upload: false, content: data.clone(), path: path.clone() });
+        xspecs.push(XferSpec { client: cb, peer: pb, kind: Kind::Download, content: data, path, conformant: true, dally: true, timeout_ratio: 1 });
+        starts.push((pa, 12 * MS));
+        starts.push((pb, 12 * MS + 100 * MS));
+        desc.push_str(" +abandoned-upload-then-slow-download-from-one-endpoint");
     }
     // intruders
     let ni = d.range("swarm.intruders", 4) as usize;
